@@ -296,6 +296,10 @@ def gen_scenario(rng, prof=None, force_selflock=None):
         if rng.random() < 0.5:
             sched.append({'op': 'newsolver'})
         sched.append({'op': 'run', 'dt': dt, 'T': mulq(dt, rng.randint(3, n))})
+    if len([o_ for o_ in sched if o_['op'] == 'run']) >= 2 and rng.random() < p.get('p_remount', 0.2):
+        # between two runs the driven part is also mounted on a second motor (sim/build.py 'remount')
+        idx_ = [k_ for k_, o_ in enumerate(sched) if o_['op'] == 'run'][1]
+        sched.insert(idx_, {'op': 'remount'})
     if rng.random() < p.get('p_badrun', 0.12):
         # calls of Solver.run rejected at the argument checks, anywhere in the schedule
         for _ in range(rng.randint(1, 2)):
